@@ -487,6 +487,14 @@ type resultTuple struct {
 	end savepoint
 }
 
+// ==template== {{ if not .Optimize }}
+type memoKey struct {
+	offset int
+	expr   any
+}
+
+// {{ end }} ==template==
+
 // {{ if .Nolint }} nolint: varcheck {{else}} ==template== {{ end }}
 const choiceNoMatch = -1
 
@@ -540,6 +548,11 @@ type parser struct {
 	// memoization table for the packrat algorithm:
 	// map[offset in source] map[expression or rule] {value, match}
 	memo map[int]map[any]resultTuple
+	// {{ end }} ==template==
+
+	// ==template== {{ if not .Optimize }}
+	// labels bound in the enclosing scope by a memoized expression
+	memoLabels map[memoKey]map[string]any
 	// {{ end }} ==template==
 
 	// rules table, maps the rule identifier to the rule node
@@ -1051,6 +1064,8 @@ func (p *parser) parseRule(rule *rule) (any, bool) {
 func (p *parser) parseExprWrap(expr any) (any, bool) {
 	// ==template== {{ if not .Optimize }}
 	var pt savepoint
+	var scope map[string]any
+	var bound map[string]struct{}
 
 	// ==template== {{ if .LeftRecursion }}
 	isLeftRecursion := p.rstack[len(p.rstack)-1].leftRecursive
@@ -1060,10 +1075,21 @@ func (p *parser) parseExprWrap(expr any) (any, bool) {
 	// {{ end }} ==template==
 		res, ok := p.getMemoized(expr)
 		if ok {
+			// labels bound in the current scope by the cached evaluation are bound again
+			for k, v := range p.memoLabels[memoKey{p.pt.offset, expr}] {
+				p.vstack[len(p.vstack)-1][k] = v
+			}
 			p.restore(res.end)
 			return res.v, res.b
 		}
 		pt = p.pt
+		scope = p.vstack[len(p.vstack)-1]
+		for k := range scope {
+			if bound == nil {
+				bound = make(map[string]struct{}, len(scope))
+			}
+			bound[k] = struct{}{}
+		}
 	}
 
 	// {{ end }} ==template==
@@ -1076,6 +1102,19 @@ func (p *parser) parseExprWrap(expr any) (any, bool) {
 	if p.memoize {
 	// {{ end }} ==template==
 		p.setMemoized(pt, expr, resultTuple{val, ok, p.pt})
+		if ok && len(scope) > len(bound) {
+			// remember the labels this expression bound in the enclosing scope
+			labels := make(map[string]any, len(scope)-len(bound))
+			for k, v := range scope {
+				if _, old := bound[k]; !old {
+					labels[k] = v
+				}
+			}
+			if p.memoLabels == nil {
+				p.memoLabels = make(map[memoKey]map[string]any)
+			}
+			p.memoLabels[memoKey{pt.offset, expr}] = labels
+		}
 	}
 	// {{ end }} ==template==
 	return val, ok
